@@ -49,6 +49,29 @@ def ancestors_of(n: ast.AST, stop: ast.AST):
         yield a
 
 
+def _is_rounds_generator(g: FunctionInfo) -> bool:
+    """a generator method whose only loop yields once per round after consulting self.is_done() exactly once:
+    'while not self.is_done(): yield x'  or  'for x in count(..) / while True:  if self.is_done(): return | break;  yield x'"""
+    body = [b for b in g.node.body if not (isinstance(b, ast.Expr) and isinstance(b.value, ast.Constant))]
+    if len(body) != 1 or not isinstance(body[0], (ast.While, ast.For)) or body[0].orelse:
+        return False
+    l = body[0]
+    ys = [y for y in ast.walk(l) if isinstance(y, (ast.Yield, ast.YieldFrom))]
+    dones = [c for c in ast.walk(l) if isinstance(c, ast.Call) and is_self_attr(c.func, "is_done")]
+    if len(ys) != 1 or isinstance(ys[0], ast.YieldFrom) or len(dones) != 1:
+        return False
+    if isinstance(l, ast.While) and _is_not_is_done(l.test):
+        return not any(isinstance(x, (ast.Break, ast.Return, ast.Continue)) for b in l.body for x in ast.walk(b))
+    unbounded = (isinstance(l, ast.While) and isinstance(l.test, ast.Constant) and l.test.value is True) or \
+        (isinstance(l, ast.For) and isinstance(l.iter, ast.Call) and call_name(l.iter) == "count")
+    first = l.body[0] if l.body else None
+    if unbounded and isinstance(first, ast.If) and first.test is dones[0] and not first.orelse and len(first.body) == 1 \
+            and isinstance(first.body[0], (ast.Break, ast.Return)) and (not isinstance(first.body[0], ast.Return) or first.body[0].value is None):
+        rest = l.body[1:]
+        return not any(isinstance(x, (ast.Break, ast.Return, ast.Continue)) for b in rest for x in ast.walk(b))
+    return False
+
+
 def _is_not_is_done(test: ast.AST) -> bool:
     return isinstance(test, ast.UnaryOp) and isinstance(test.op, ast.Not) and isinstance(test.operand, ast.Call) \
         and is_self_attr(test.operand.func, "is_done") and not test.operand.args
@@ -80,7 +103,18 @@ def run(ctx: Ctx) -> None:
                     guard_break = (l, first.body[0])
                     top_loops = [l]
                     break
-        ok: Optional[bool] = guard_break is not None or (len(top_loops) == 1 and _is_not_is_done(top_loops[0].test))
+        rounds_loop = None
+        if guard_break is None and not (len(top_loops) == 1 and _is_not_is_done(top_loops[0].test)):
+            # for _ in self.rounds(): the loop is driven by a generator method that consults the budget exactly once before each round
+            for l in loops:
+                if isinstance(l, ast.For) and isinstance(l.iter, ast.Call) and isinstance(l.iter.func, ast.Attribute) and isinstance(l.iter.func.value, ast.Name) \
+                        and l.iter.func.value.id == "self" and f.cls is not None and not any(isinstance(a_, (ast.For, ast.While)) for a_ in ancestors_of(l, f.node)):
+                    g_ = prog.lookup_method(f.cls, l.iter.func.attr)
+                    if g_ is not None and _is_rounds_generator(g_):
+                        rounds_loop = l
+                        top_loops = [l]
+                        break
+        ok: Optional[bool] = guard_break is not None or rounds_loop is not None or (len(top_loops) == 1 and _is_not_is_done(top_loops[0].test))
         if not ok and len(top_loops) != 1:
             ok = None     # another loop shape: the model of R2 decides what happens between budget checks
         ctx.ob("C14.R1", f, top_loops[0] if top_loops else f.node, "loop test is exactly 'not self.is_done()'", ok,
